@@ -117,7 +117,7 @@ PROPS["C01"] = {
 
 PROPS["C02"] = {
     "level": "exploration",
-    "rule": "UDP-capable configurations of the README table (Shadowsocks UDP x 7 ciphers x {0,1,3 users}; VMess x {tcp,tls,ws,wss,quic} x 2 securities; Trojan x {tls,wss,quic}; quick = a rotating third): K in {1,4,6/16} application sockets x M in {1,3} echo targets (IPv4 literal and domain), 24/60 datagrams each with sizes {21,64,512,1200,1472,2000,2048,4096,16000,32000}, 1 or 3 replies per datagram (the last from a second port), plus 0/1/2-byte datagrams one at a time and a sweep over the top of the size range (40000, 60000, 65000, 65300 and every (quick: every third) size 65400..65497, one at a time from a fresh socket: whole and identical or not at all, the evidence names the largest size relayed per configuration); every datagram carries a unique id and is PRNG-filled, so the oracle checks at-most-once, whole, right target, reply to the right application socket, reply label = the target's address; a size class that is never answered while others are is a violation, sporadic loss is only counted; evaluations = configurations; distinct = configurations in which datagrams were verified",
+    "rule": "UDP-capable configurations of the README table (Shadowsocks UDP x 7 ciphers x {0,1,3 users}; VMess x {tcp,tls,ws,wss,quic} x 2 securities; Trojan x {tls,wss,quic}; quick = a rotating third): K in {1,4,6/16} application sockets x M in {1,3} echo targets (IPv4 literal and domain), 24/60 datagrams each with sizes {21,64,512,1200,1472,2000,2048,4096,16000,32000}, 1 or 3 replies per datagram (the last from a second port), plus 0/1/2-byte datagrams one at a time and a sweep over the top of the size range (40000, 60000, 65000, 65300 and every (quick: every third) size 65400..65497, one at a time from a fresh socket: whole and identical or not at all, the evidence names the largest size relayed per configuration); every datagram carries a unique id and is PRNG-filled, so the oracle checks at-most-once, whole, right target, reply to the right application socket, reply label = the target's address; where the configuration has several users a SECOND client process configured as another user runs its own applications against the same targets at the same time (nothing may cross between clients, sessions or users); a size class that is never answered while others are is a violation, sporadic loss is only counted; evaluations = datagrams sent + configurations; distinct = (configuration, application) pairs and configurations in which datagrams were verified",
     "assumptions": E2E_TB + ["sending is paced (window of 8) so that loopback does not drop", "a label naming the target the way the application addressed it (domain) counts as the target's address"],
     "plan": [{"name": "datagrams", "check": "c02", "bin": "osv-e2e", "timeout": {"quick": 900, "thorough": 3600}}],
 }
